@@ -53,12 +53,31 @@ class SafeRun(C.Run):
 # switching back to a tree seen before costs nothing.  coq/Units/Gen_*.v (written by tools/regen.sh
 # for setup / `build all`) is not touched by the checks.
 TREES = C.SCRATCH / "units" / "trees"
-STATIC_TARGETS = ["Units/TableProofs.vo", "Units/DispatchProofs.vo", "Units/SIStringProofs.vo", "Units/Pinned.vo"]
+STATIC_TARGETS = ["Units/TableProofs.vo", "Units/DispatchProofs.vo", "Units/SIStringProofs.vo", "Units/Pinned.vo",
+                  "Units/Dispatch.vo", "Units/SIString.vo"]
 TREE_FILES = [("Gen_Tables", None), ("Gen_Compound", None),
               ("GenFacts16", "Units/GenFacts16.v"), ("GenFacts17", "Units/GenFacts17.v")]
 TREE_DEPS = {"Gen_Tables": [], "Gen_Compound": [], "GenFacts16": ["Gen_Tables"],
              "GenFacts17": ["Gen_Tables", "Gen_Compound"]}
-_GEN_IMPORT = re.compile(r"^From PV Require Import ((?:Units\.(?:Gen_Tables|Gen_Compound|GenFacts16|GenFacts17)\s*)+)\.\s*$", re.M)
+_GEN_IMPORT = re.compile(r"^From PV Require Import ((?:Units\.(?:Gen_Tables|Gen_Compound|GenFacts16|GenFacts17|Gen_Methods|GenAgree)\s*)+)\.\s*$", re.M)
+# the second tie: the method bodies of Quantity / SI translated from the source text (translator/py2gallina_units.py),
+# proved equal to the hand-written model (coq/Units/GenAgree.v), in the same per-tree directory
+METHOD_TRANSLATOR = C.VERIF / "translator" / "py2gallina_units.py"
+AGREE = C.COQ / "Units" / "GenAgree.v"
+METHOD_STATIC = ["Units/Dispatch.vo", "Units/SIString.vo", "Units/TableProofs.vo", "Units/DispatchProofs.vo",
+                 "Units/SIStringProofs.vo"]
+_ITEM = re.compile(r"^[ \t]*(Theorem|Lemma|Definition|Fixpoint)\s+([A-Za-z0-9_']+)", re.M)
+_GEN_NAME = re.compile(r"\b(?:gen|dyn)_[A-Za-z0-9_']+|\bpy_construct_type\b")
+HAND_ONLY = [
+    "which method an expression  x op y  calls (the left operand's own method; the reflected method of the right operand for a "
+    "number or str on the left; the mirrored comparison): gen_left_method / gen_reflected in coq/Units/GenAgree.v mirror "
+    "Dispatch.left_method / reflected by hand",
+    "cls(value, unit) = __new__ followed by __init__, float.__new__, str(float): fixed in the translator's prelude",
+    "__repr__, __ceil__, __floor__, __floordiv__, __mod__, __round__, __trunc__, __pow__ of both classes (not in the model)",
+    "the exception messages (evaluated for their effects only)",
+    "Python semantics fixed in the translator's prelude: type() / isinstance on the value universe (float and int are one kind of "
+    "number), dict look-ups in the generated tables, list / str primitives, for = fold, while on explicit fuel",
+]
 COQ_WARN = "-notation-overridden,-deprecated-hint-without-locality,-abstract-large-number,-inexact-float"
 
 
@@ -71,7 +90,7 @@ def to_tree_source(text: str) -> str:
 def tree_key() -> str:
     h = hashlib.sha1(str(C.REPO.resolve()).encode() + b"\0")
     for f in (C.REPO / "src" / "pydsol" / "core" / "units.py", C.VERIF / "translator" / "dump_units.py",
-              C.COQ / "Units" / "Tables.v", C.COQ / "Units" / "Sig.v"):
+              C.COQ / "Units" / "Tables.v", C.COQ / "Units" / "Sig.v", METHOD_TRANSLATOR):
         h.update(f.read_bytes())
         h.update(b"\0")
     return h.hexdigest()[:16]
@@ -151,6 +170,219 @@ class Tree:
                 vo.unlink(missing_ok=True)
                 self.failed[mod] = out[-2500:]
 
+    # ------------------------------------------------------------ second tie: method bodies translated from the source
+    def prepare_methods(self):
+        """translate the method bodies (once per key), compile Gen_Methods.v and the agreement proofs GenAgree.v;
+        agreement theorems that no longer check are given up one by one so that each is named"""
+        import fcntl
+        import time
+        self.info, self.failed_theorems, self.gen_error, self.timing = {}, [], "", getattr(self, "timing", {})
+        t0 = time.time()
+        self.dir.mkdir(parents=True, exist_ok=True)
+        with open(self.dir / ".lock", "w") as lk:
+            fcntl.flock(lk, fcntl.LOCK_EX)
+            try:
+                self._translate_methods()
+                self._build_methods()
+            finally:
+                fcntl.flock(lk, fcntl.LOCK_UN)
+        self.timing["prepare_methods_s"] = round(time.time() - t0, 2)
+        return self
+
+    def _translate_methods(self):
+        import time
+        j = self.dir / "Gen_Methods.json"
+        if not j.exists():
+            t0 = time.time()
+            env = dict(os.environ)
+            env["VERIF_REPO"] = str(C.REPO)
+            env["PYTHONDONTWRITEBYTECODE"] = "1"
+            p = subprocess.run(["timeout", "120", C.PY, str(METHOD_TRANSLATOR), "--out", str(self.dir), "--keep-going"],
+                               capture_output=True, text=True, env=env)
+            (self.dir / "translator_methods.log").write_text(p.stdout + p.stderr)
+            if not j.exists():
+                j.write_text(json.dumps({"ok": False, "repo": str(C.REPO), "methods": [], "definitions": [],
+                                         "hand_transcribed_only": [], "failures": [
+                    {"class": None, "method": None, "line": 0, "construct": "translator crashed",
+                     "error": f"translator exit {p.returncode}: " + (p.stderr or p.stdout)[-1500:]}]}))
+            self.timing["translate_methods_s"] = round(time.time() - t0, 2)
+        self.info = json.loads(j.read_text())
+        if Path(self.info.get("repo", "")).resolve() != C.REPO.resolve():
+            raise RuntimeError(f"translator read {self.info.get('repo')} but the check runs against {C.REPO}")
+
+    @staticmethod
+    def _fresh(vo: Path, v: Path, deps) -> bool:
+        return vo.exists() and vo.stat().st_mtime_ns >= v.stat().st_mtime_ns and \
+            all(d.exists() and d.stat().st_mtime_ns <= vo.stat().st_mtime_ns for d in deps)
+
+    def _build_methods(self):
+        import time
+        static = [C.COQ / v for v in METHOD_STATIC]
+        gv, gvo = self.dir / "Gen_Methods.v", self.dir / "Gen_Methods.vo"
+        av, avo = self.dir / "GenAgree.v", self.dir / "GenAgree.vo"
+        state = self.dir / "agree_state.json"
+        src = self.dir / "GenAgree.src.sha1"
+        self.gen_error, self.failed_theorems = "", []
+        if not gv.exists():
+            self.gen_error = "no Gen_Methods.v (translation failed)"
+            avo.unlink(missing_ok=True)
+            return
+        if not self._fresh(gvo, gv, static):
+            t0 = time.time()
+            rc, out = coqc_tree(self.dir, gv, timeout=300, cwd=self.dir)
+            self.timing["coqc_gen_methods_s"] = round(time.time() - t0, 2)
+            if rc != 0:
+                gvo.unlink(missing_ok=True)
+                avo.unlink(missing_ok=True)
+                self.gen_error = out[-2500:]
+                return
+        text = to_tree_source(AGREE.read_text())
+        sha = hashlib.sha1(text.encode()).hexdigest()
+        if avo.exists() and state.exists() and src.exists() and src.read_text() == sha and \
+                all(d.exists() and d.stat().st_mtime_ns <= avo.stat().st_mtime_ns for d in [gvo] + static):
+            self.failed_theorems = json.loads(state.read_text())
+            return
+        t0 = time.time()
+        seen = {}
+
+        def note(name, why):
+            if name not in seen:
+                seen[name] = 0
+                self.failed_theorems.append({"theorem": name, "why": why})
+
+        # items that mention a definition the translator had to leave out cannot check: drop them (and what is built on
+        # them) before the first compilation
+        defined_here = {n for _k, n, _a, _b in self._items(text)}
+        have = set(self.info.get("definitions", [])) | set(re.findall(r"^(?:Definition|Fixpoint) ([A-Za-z0-9_']+)", gv.read_text(), re.M))
+        missing = {n for n in _GEN_NAME.findall(text) if n not in have and n not in defined_here}
+        if missing:
+            text = self._drop_dependents(text, missing, note, lambda n, hit: f"uses {hit}, which the translator had to leave out")
+        for _ in range(60):
+            av.write_text(text)
+            rc, out = coqc_tree(self.dir, av, timeout=600, cwd=self.dir)
+            if rc == 0:
+                break
+            m = re.search(r'File "[^"]*GenAgree\.v", line (\d+)', out)
+            item = self._item_at(text, int(m.group(1))) if m else None
+            err = re.sub(r"\s+", " ", out[out.find("Error"):])[:600]
+            if item is None or seen.get(item[1], 0) >= 2:
+                avo.unlink(missing_ok=True)
+                note("GenAgree.v", out[-1500:])
+                break
+            kind, name = item[0], item[1]
+            note(name, err)
+            seen[name] += 1
+            # first the proof is given up (the statement stays, nothing is defined); if the statement itself does not check
+            # any more the whole item goes; whatever is built on it goes with it
+            text = self._abort(text, name) if (kind in ("Theorem", "Lemma") and seen[name] == 1) else self._drop(text, name)
+            text = self._drop_dependents(text, {name}, note, lambda n, hit: f"rests on {hit}, which no longer checks")
+        state.write_text(json.dumps(self.failed_theorems))
+        src.write_text(sha)
+        self.timing["coqc_agree_s"] = round(time.time() - t0, 2)
+
+    def _drop_dependents(self, text, names, note, why):
+        names = set(names)
+        changed = True
+        while changed:
+            changed = False
+            for _kind, n, a, b in self._items(text):
+                if n in names:
+                    continue
+                body = text[a:b]
+                hit = next((x for x in names if re.search(r"(?<![A-Za-z0-9_'])" + re.escape(x) + r"(?![A-Za-z0-9_'])", body)), None)
+                if hit is not None:
+                    note(n, why(n, hit))
+                    text = self._drop(text, n)
+                    names.add(n)
+                    changed = True
+                    break
+        return text
+
+    @classmethod
+    def _items(cls, text: str):
+        """(kind, name, start, end) of every theorem (up to its Qed / Defined / Abort) and definition (up to its full stop)"""
+        out = []
+        for m in _ITEM.finditer(text):
+            if out and m.start() < out[-1][3]:
+                continue
+            head = text[m.end():m.end() + 4000]
+            is_proof = m.group(1) in ("Theorem", "Lemma") or (re.search(r"\.\s", head) and
+                                                              re.match(r"\s*Proof\b", head[re.search(r"\.\s", head).end():]))
+            if is_proof:
+                q = re.compile(r"\b(?:Qed|Defined|Abort)\.").search(text, m.end())
+            else:
+                q = re.compile(r"\.(?=\s|$)").search(text, m.end())
+            out.append(("Theorem" if is_proof else m.group(1), m.group(2), m.start(), q.end() if q else len(text)))
+        return out
+
+    def _item_at(self, text: str, line: int):
+        pos = sum(len(l) + 1 for l in text.split("\n")[:line - 1])
+        best = None
+        for it in self._items(text):
+            if it[2] <= pos + 1:
+                best = it
+        return best
+
+    def _abort(self, text: str, name: str) -> str:
+        """the same file with the proof of one theorem given up (statement kept, nothing defined)"""
+        for _k, n, a, b in self._items(text):
+            if n == name:
+                body = text[a:b]
+                i = body.find("Proof.")
+                if i < 0:
+                    return self._drop(text, name)
+                keep_lines = "\n" * body[i:].count("\n")
+                return text[:a] + body[:i] + "Proof. Abort. (* no longer checks *)" + keep_lines + text[b:]
+        return text
+
+    def _drop(self, text: str, name: str) -> str:
+        for _k, n, a, b in self._items(text):
+            if n == name:
+                keep_lines = "\n" * text[a:b].count("\n")
+                return text[:a] + f"(* {name}: no longer checks, left out *)" + keep_lines + text[b:]
+        return text
+
+    def agreement_theorems(self):
+        return re.findall(r"^[ \t]*Theorem\s+([A-Za-z0-9_']+)", AGREE.read_text(), re.M)
+
+    def broken(self, pid: str | None = None):
+        """None when the regenerated methods are proved equal to the hand-written model (for `pid`: as far as the last
+        section of coq/Props/<pid>.v uses the agreement); otherwise what no longer checks."""
+        fails = self.info.get("failures", [])
+        thms = [f for f in self.failed_theorems if f["theorem"]]
+        if self.gen_error and not fails:
+            return {"stage": "generated file does not compile", "detail": self.gen_error[-1200:], "theorems": []}
+        if pid is not None and (thms or fails):
+            used = set(re.findall(r"[A-Za-z_][A-Za-z0-9_']*", (C.COQ / "Props" / f"{pid}.v").read_text()))
+            rel = [t for t in thms if t["theorem"] in used or t["theorem"] == "GenAgree.v"]
+            if not rel:
+                return None
+            thms = rel + [t for t in thms if t not in rel]
+        if fails:
+            return {"stage": "translation", "detail": "; ".join(dict.fromkeys(f["error"] for f in fails)),
+                    "theorems": [t["theorem"] for t in thms], "failures": fails,
+                    "first": thms[0]["theorem"] if thms else None}
+        if thms:
+            first = next((t for t in self.failed_theorems if not t["why"].startswith(("rests on", "uses "))), thms[0])
+            return {"stage": "agreement proof", "detail": first["why"], "theorems": [t["theorem"] for t in thms],
+                    "first": first["theorem"]}
+        return None
+
+    def coverage(self) -> dict:
+        ms = self.info.get("methods", [])
+        return {"translator": "translator/py2gallina_units.py (Python ast, fail-closed; units.py is parsed, not imported, by it)",
+                "source": self.info.get("source"), "source_sha1": self.info.get("source_sha1"),
+                "tree_directory": f".scratch/units/trees/{self.key}",
+                "translated_methods": [{"method": f"{m['class']}.{m['method']}", "lines": m["lines"], "as": m["what"],
+                                        "text_sha1": m["sha1"]} for m in ms],
+                "generated_definitions": self.info.get("definitions", []),
+                "translated_text_sha1": self.info.get("translated_text_sha1"),
+                "translation_failures": self.info.get("failures", []),
+                "agreement_theorems": self.agreement_theorems(),
+                "agreement_theorems_not_checking": self.failed_theorems,
+                "hand_transcribed_only": list(self.info.get("hand_transcribed_only", [])) + HAND_ONLY,
+                "timing": self.timing}
+
     def _sweep(self):
         """forget the directories of trees not used for a day"""
         import shutil
@@ -190,6 +422,15 @@ def check_proofs(run: C.Run, tree: Tree, extra_tb=None) -> bool:
     gate = C.source_gate()
     ok, log = C.build_coq(STATIC_TARGETS)
     gen_fail = {m: o for m, o in tree.failed.items()}
+    if ok:
+        try:
+            tree.prepare_methods()
+        except Exception as exc:  # noqa
+            tree.info = {"ok": False, "methods": [], "definitions": [], "failures": [
+                {"class": None, "method": None, "line": 0, "construct": "translator", "error": f"{type(exc).__name__}: {exc}"}]}
+            tree.failed_theorems, tree.gen_error, tree.timing = [], str(exc), {}
+    else:
+        tree.info, tree.failed_theorems, tree.gen_error, tree.timing = {}, [], "the hand-written model does not build", {}
     rep = tree.props_report(run.pid)
     n = len(rep["theorems"])
     run.cov["obligations"] = max(n, 1)
@@ -197,15 +438,27 @@ def check_proofs(run: C.Run, tree: Tree, extra_tb=None) -> bool:
     run.cov["theorems"] = rep["theorems"]
     run.cov["axioms_per_theorem"] = rep["assumptions"]
     run.cov["generated_modules_not_compiling"] = sorted(gen_fail)
+    run.cov["source_translation"] = tree.coverage()
+    tie = tree.broken(run.pid)
+    run.cov["source_translation"]["tie"] = ({"status": "broken", **{k: v for k, v in tie.items() if k != "failures"}}
+                                            if tie else {"status": "checked"})
     run.cov["checker_cmd"] = (f"python3 translator/dump_units.py --out .scratch/units/trees/{tree.key} && "
+                              f"python3 translator/py2gallina_units.py --out .scratch/units/trees/{tree.key} && "
                               f"python3 tools/build.py {' '.join(STATIC_TARGETS)} && "
                               f"coqc -R coq PV -R .scratch/units/trees/{tree.key} PVT <Gen_Tables.v Gen_Compound.v GenFacts16.v "
-                              f"GenFacts17.v, coq/Props/{run.pid}.v> (generated modules imported from PVT; full .vo; "
-                              "Print Assumptions under every theorem)")
+                              f"GenFacts17.v Gen_Methods.v, coq/Units/GenAgree.v, coq/Props/{run.pid}.v> (generated modules imported "
+                              "from PVT; full .vo; Print Assumptions under every theorem)")
     axioms = sorted({a for v in rep["assumptions"].values() for a in v})
     tb = [C.KERNEL_TB,
           "axioms reported by Print Assumptions: " + (", ".join(axioms) if axioms else "none (all theorems closed under the global context)"),
-          "hand-written Gallina model tied to /repo by the per-run correspondence check (harness/%s.py)" % run.pid.lower()]
+          "hand-written Gallina model tied to /repo (a) by the per-run correspondence check (harness/%s.py) and (b) by equality "
+          "with the method bodies regenerated from the source text on every run (translator/py2gallina_units.py + "
+          "coq/Units/GenAgree.v)" % run.pid.lower(),
+          "the translator translator/py2gallina_units.py: its Python subset and the meaning it gives to it (objects = quantity "
+          "instance / SI instance with stored unit text / number / str; type() and isinstance on that universe with float and int as "
+          "one kind; cls(value, unit) = __new__ then __init__; a * b with a Quantity / SI on the left = that class's method; dict "
+          "look-ups in the generated tables; exception messages evaluated for their effects only; for = fold, while on explicit "
+          "fuel; only lists created in a method and not yet handed on may be changed in place)"]
     run.cov["trusted_base"] = tb + list(extra_tb or [])
     if gate:
         run.violation("forbidden-construct", "forbidden construct in the Coq development: " + "; ".join(gate[:5]),
@@ -215,6 +468,35 @@ def check_proofs(run: C.Run, tree: Tree, extra_tb=None) -> bool:
         run.proof_log = (log[-2000:] if not ok else "") + "".join(f"\n[{m}] {o[-1200:]}" for m, o in gen_fail.items()) + rep["log"][-1500:]
         return False
     return True
+
+
+def report_broken_tie(run: C.Run, tree: Tree, extra: dict | None = None):
+    """the regenerated method bodies no longer equal the proved model and no explored input violates the property itself"""
+    b = tree.broken(run.pid)
+    if not b:
+        return
+    names = [t for t in b["theorems"] if t] or ["(none compiled: " + b["stage"] + ")"]
+    if b["stage"] == "translation":
+        how = b["detail"][:500]
+    elif b["stage"] == "agreement proof":
+        m = re.match(r"gen_(Quantity|SI)_(.+)_eq$", b["first"] or "")
+        rec = next((x for x in tree.info.get("methods", []) if m and x["class"] == m.group(1) and x["method"] == m.group(2)), None)
+        where = f" (the translation of {rec['class']}.{rec['method']}, {Path(rec['file']).name}:{rec['lines'][0]}-{rec['lines'][1]})" if rec else ""
+        how = (f"agreement theorem {b['first']} of coq/Units/GenAgree.v no longer checks{where}"
+               + (f" (and {len(names) - 1} that rest on it: " + ", ".join(n for n in names if n != b['first'])[:400] + ")" if len(names) > 1 else ""))
+    else:
+        how = b["detail"][-300:]
+    what = ("the method bodies regenerated from src/pydsol/core/units.py are no longer proved equal to the model the "
+            f"{run.pid} theorems are about ({b['stage']}): {how}; the clause oracle found no input on which the changed code "
+            "violates the property")
+    body = {"relation": "coq/Units/GenAgree.v: " + ", ".join(names), "stage": b["stage"], "detail": b["detail"],
+            "unchecked_theorems": names, "generated_file": str(tree.dir / "Gen_Methods.v"),
+            "how": f"VERIF_REPO={C.REPO} python3 translator/py2gallina_units.py --out <dir>; coqc -R coq PV -R <dir> PVT "
+                   "<dir>/Gen_Methods.v, then coq/Units/GenAgree.v with the generated module imported from PVT"}
+    if b.get("failures"):
+        body["translation_failures"] = b["failures"]
+    body.update(extra or {})
+    run.violation("translated-model-differs", what, body, found_input=False)
 
 
 def load_units():
